@@ -469,6 +469,19 @@ def api_cases(hl):
         return hl.if_else(i32(1) < 2, e + e, e - 1)
 
     @case
+    def shared_node_also_an_if_branch_at_same_depth():
+        # n3 occurs at depth 2 under (n3 + n3) and, at depth 2 again, as the branch of an If
+        y = i32(2) + 1
+        n3 = y * y
+        return (n3 + n3) + hl.if_else(i32(1) < 2, n3, i32(0))
+
+    @case
+    def lifted_node_seen_again_at_the_depth_of_its_if_branch_site():
+        z = i32(2) * 3
+        x = z + z
+        return ((x + 1) + x) + hl.if_else(z < 7, z, x)
+
+    @case
     def nested_if_shared():
         e = i32(2) * 3
         return hl.if_else(e > 1, hl.if_else(e > 2, e + e, e), e * e)
